@@ -286,3 +286,11 @@ TEXT["C07"].update(
     level=TEXT["C07"]["level"] + " Sending half of 'from the address it was addressed to' (Verus, unit netsend, R9 slice of erbium_net::socket::send_msg): the ancillary message handed to sendmsg(2) carries send_from in in_pktinfo.ipi_spec_dst (IPv4) / in6_pktinfo.ipi6_addr (IPv6) -- the fields Linux takes the source address from.")
 TEXT["C17"].update(
     level=TEXT["C17"]["level"] + " Kani (complete): the PREF64 prefix-length-code table is RFC 8781's for all 256 lengths and all 65536 codes.")
+
+TEXT["C11"].update(
+    engine="verus+bounded",
+    level=TEXT["C11"]["level"] + " Bounded (engine B, real apply_policies): an apply-<option> value is in the reply iff the client's parameter request list contains that option's OWN code (10 codes incl. pairs 128 apart x every list of up to 2 codes); netmask / broadcast defaults iff requested.")
+
+TEXT["C06"].update(
+    engine="verus+kani+bounded",
+    level=TEXT["C06"]["level"] + " Bounded (engine B, real calculate_expiry / insert_cache_entry / get_entry, body-independent): for every history of up to 3 insertions under one key and 8 probe offsets around the boundaries, a reply is served from the cache iff the offset is below the smallest TTL of the reply inserted LAST, and every served TTL is the stored one minus the whole seconds elapsed.")
